@@ -143,16 +143,16 @@ theorem j_step (c : NtsCfg) (pre : List Host) (h : Host) (st : NtsSt) (g : Good 
         exact List.mem_append_left _ (j.sp d x hx)
 
 theorem j_walk (c : NtsCfg) : ∀ (l pre : List Host) (st : NtsSt), (pre ++ l).Nodup → Good c st → J pre st →
-    J (pre ++ l) (ntsWalk c st l) := by
+    J (pre ++ l) (walk0 c st l) := by
   intro l
   induction l with
-  | nil => intro pre st _ _ j; simpa [ntsWalk] using j
+  | nil => intro pre st _ _ j; simpa [walk0] using j
   | cons h rest ih =>
     intro pre st hnd g j
     have hmono : ∀ s, J pre s → J (pre ++ h :: rest) s := fun s j =>
       ⟨j.rnd, j.snd, j.dis, fun x hx => List.mem_append_left _ (j.rp x hx),
        fun d x hx => List.mem_append_left _ (j.sp d x hx)⟩
-    unfold ntsWalk
+    unfold walk0
     by_cases h1 : st.crash = true
     · simp only [h1, if_true]; exact hmono st j
     · simp only [h1, Bool.false_eq_true, if_false]
